@@ -363,7 +363,8 @@ def rand_split_exe(rng):
             if rng.chance(1, 12):            # filter bits outside the mask (unspecified)
                 i = rng.below(n)
                 fb[i] |= (~mb[i]) & 0xff & (1 << rng.below(8))
-            steps.append({"cmd": "addout %d %d %s %s" % (o, n, hexs(fb), hexs(mb)),
+            # (one output in three gets its sink only when it asks for one: need_output)
+            steps.append({"cmd": "addout %d %d %s %s%s" % (o, n, hexs(fb), hexs(mb), " lazy" if rng.chance(1, 3) else ""),
                           "ev": {"e": "AddOut", "o": o, "n": n, "f": fb, "m": mb}})
             present.add(o)
         elif c < 4 and present:
@@ -445,7 +446,8 @@ def route_beh_exe(b, rng, source):
         sg = " " + segs if segs else ""
         if op["op"] == "add":
             f = fils[str(op["f"])]
-            steps.append({"cmd": "addout %d %d %s %s" % (op["o"], f["n"], hexs(f["fb"]), hexs(f["mb"])),
+            steps.append({"cmd": "addout %d %d %s %s%s" % (op["o"], f["n"], hexs(f["fb"]), hexs(f["mb"]),
+                                                             " lazy" if rng is not None and rng.chance(1, 3) else ""),
                           "ev": {"e": "AddOut", "o": op["o"], "n": f["n"], "f": list(f["fb"]), "m": list(f["mb"])}})
             pred.append(None)
         elif op["op"] == "del":
